@@ -313,6 +313,37 @@ class AxisScope(object):
                 return {pos} if pos in (0, 1, 2) else set()
         return set()
 
+    def api_origin(self, e, depth=0):
+        """API name an expression ultimately denotes: attribute name, dictionary key, keyword of kwargs.get, or parameter name;
+        locals are followed through their single definition (their own names never matter)"""
+        if depth > 6 or e is None:
+            return None
+        if isinstance(e, ast.Attribute):
+            return e.attr
+        if isinstance(e, ast.Subscript):
+            if isinstance(e.slice, ast.Constant) and isinstance(e.slice.value, str):
+                return e.slice.value
+            return self.api_origin(e.value, depth + 1)
+        if isinstance(e, ast.Call):
+            if isinstance(e.func, ast.Attribute) and e.func.attr in ('get', 'pop') and e.args and isinstance(e.args[0], ast.Constant):
+                return e.args[0].value
+            if isinstance(e.func, ast.Name) and e.func.id in ('int', 'float', 'list', 'tuple', 'len') and e.args:
+                return self.api_origin(e.args[0], depth + 1)
+            return None
+        if isinstance(e, ast.IfExp):
+            a, b = self.api_origin(e.body, depth + 1), self.api_origin(e.orelse, depth + 1)
+            return a if a == b else None
+        if isinstance(e, ast.Name):
+            vals = [d[1] for d in self.defs.get(e.id, []) if d[3] in ('assign',) and d[1] is not None]
+            if not vals and e.id in self.params:
+                return e.id
+            origins = {self.api_origin(v, depth + 1) for v in vals}
+            origins.discard(None)
+            if len(origins) == 1:
+                return origins.pop()
+            return None
+        return None
+
     def int_tags(self, e, at=None):
         return {t for t in self.tag(e, at) if isinstance(t, int)}
 
